@@ -450,8 +450,13 @@ func NewRig(dir string, cfg Cfg) (*Rig, error) {
 			return w, nil
 		},
 		CloseWriter: func() error {
-			s.hit("closew")
-			return r.TM.Close()
+			// fault model for closing: the drive is closed and released, and the close then reports an error (close(2) returning EIO)
+			ferr := s.hit("closew")
+			err := r.TM.Close()
+			if ferr != nil {
+				return ferr
+			}
+			return err
 		},
 		GetReader: func() (config.DriveReaderConfig, error) {
 			if err := s.hit("openr"); err != nil {
@@ -465,8 +470,12 @@ func NewRig(dir string, cfg Cfg) (*Rig, error) {
 			return rd, nil
 		},
 		CloseReader: func() error {
-			s.hit("closer")
-			return r.TM.Close()
+			ferr := s.hit("closer")
+			err := r.TM.Close()
+			if ferr != nil {
+				return ferr
+			}
+			return err
 		},
 		MagneticTapeIO: mt,
 	}
@@ -480,7 +489,13 @@ func NewRig(dir string, cfg Cfg) (*Rig, error) {
 		if err != nil {
 			return nil, nil, err
 		}
-		return &cacheWrap{c: c, s: s}, cl, nil
+		return &cacheWrap{c: c, s: s}, func() error {
+			if err := s.hit("cacheclean"); err != nil {
+				_ = cl()
+				return err
+			}
+			return cl()
+		}, nil
 	}
 	if cfg.NoWriteBE {
 		r.S = fs.NewSTFS(r.ROps, nil, r.Meta, "", nil, true, false, func(*config.Header) {}, nolog{})
